@@ -112,6 +112,7 @@ type FuncContract struct {
 	Observer string
 	Inline   []string
 	InlCallees []string // `loop CALLEE.N ...`: loops of inlined callees; loop id = 1000*(index+1)+N
+	Appends  string   // extern only: `appends P`: the first result is the slice parameter P extended IN PLACE when its capacity suffices (append semantics)
 	Fresh    []string // extern/trusted only: named pointer results that are freshly allocated when non-nil
 	Uses     []string
 	Induct   []string
@@ -178,7 +179,7 @@ type ContractFile struct {
 
 var clauseKeywords = map[string]bool{
 	"requires": true, "ensures": true, "modifies": true, "pure": true, "observer": true, "loop": true,
-	"inline": true, "fresh": true, "uses": true, "induct": true, "decreases": true, "witness": true, "trusted": true,
+	"inline": true, "fresh": true, "appends": true, "uses": true, "induct": true, "decreases": true, "witness": true, "trusted": true,
 	"trigger": true, "instance": true, "nooverflow": true, "assert": true, "wraparound": true, "effect": true, "callback": true, "fuel": true, "reveal": true,
 }
 
@@ -469,6 +470,8 @@ func (cf *ContractFile) addClause(fc *FuncContract, text string, line int) error
 		fc.Observer = rest
 	case "inline":
 		fc.Inline = append(fc.Inline, splitTopComma(rest)...)
+	case "appends":
+		fc.Appends = strings.TrimSpace(rest)
 	case "fresh":
 		fc.Fresh = append(fc.Fresh, splitTopComma(rest)...)
 	case "uses":
